@@ -131,7 +131,7 @@ func normaliseSources(repoDir string, env []string, buildFlags []string) (map[st
 	orig := pkgs[0]
 	cur := orig
 	var overlay map[string][]byte
-	for round := 0; round < 3; round++ {
+	for round := 0; round < 6; round++ {
 		ov, inlined, err := normaliseRound(repoDir, orig, cur, overlay, base, rep, round)
 		if err != nil {
 			return nil, rep, err
